@@ -45,8 +45,9 @@ def classify_known(rec, gmodel, known_ids):
     if isinstance(e, dict):
         msg = e.get("err") or e.get("panic") or e.get("hang") or ""
         full = e.get("err_full") or msg
-        if out == "engine_error" and e.get("phase", "plan") == "plan" and "lateral" in q.classes and \
-                ("Column expr not referencing a valid table ref" in full or "Table ref is invalid" in full) and \
+        if out == "engine_error" and "lateral" in q.classes and \
+                ("Column expr not referencing a valid table ref" in full or "Table ref is invalid" in full or
+                 "Cannot clone arrays with different data types" in full) and \
                 "lateral-nested-correlation-plan-error" in known_ids and \
                 sqlast.lateral_nested_correlation(sqlast.parse(q.sx)):
             # class: a LATERAL subquery that itself contains a subquery (or a further LATERAL) referencing columns
